@@ -128,6 +128,8 @@ pub enum Step {
     Func { exit: bool, probes: Vec<i32> },
     /// `inject_at(idx, mode, op)` for each probe operator
     InjectAt { idx: usize, mode: usize, probes: Vec<i32> },
+    /// `clear_instr_at(loc, mode)`: withdraws what was injected there in that mode
+    ClearAt { idx: usize, mode: usize },
 }
 
 pub const PATHS: &[&str] = &["moditer", "compiter", "modifier"];
@@ -157,6 +159,16 @@ pub fn gen_plan(r: &mut Rng, toks: &[String], allow_special: bool, next_probe: &
             .collect()
     };
     for _ in 0..nsteps {
+        if !plan.is_empty() && r.chance(1, 12) {
+            // withdraw an earlier injection (or clear a list nothing was injected into)
+            let prev: Vec<(usize, usize)> = plan.iter().filter_map(|s| match s {
+                Step::At { idx, mode, .. } | Step::InjectAt { idx, mode, .. } => Some((*idx, *mode)),
+                _ => None,
+            }).collect();
+            let (idx, mode) = if !prev.is_empty() && r.chance(3, 4) { *r.pick(&prev) } else { (r.below(n), r.below(if allow_special { 7 } else { 3 })) };
+            plan.push(Step::ClearAt { idx, mode });
+            continue;
+        }
         let kind = r.weighted(&[10, 1, if allow_special { 1 } else { 0 }, if allow_special { 2 } else { 0 }, 3]);
         match kind {
             0 | 4 => {
@@ -266,6 +278,14 @@ where
                     }
                 }
             }
+            Step::ClearAt { idx, mode } => {
+                let loc = {
+                    goto(it, *idx);
+                    it.curr_loc().0
+                };
+                ops.borrow_mut().push(format!("cl~{idx}~{}", MODES[*mode].0));
+                it.clear_instr_at(loc, im(*mode));
+            }
             Step::InjectAt { idx, mode, probes } => {
                 goto(it, 0);
                 for p in probes {
@@ -323,6 +343,10 @@ fn apply_modifier<'a>(m: &mut Module<'a>, fid: FunctionID, plan: &[Step], last: 
                 // leave the function-level mode again (FunctionModifier::finish_instr)
                 fm.finish_instr();
                 ops.borrow_mut().push("ff".to_string());
+            }
+            Step::ClearAt { idx, mode } => {
+                ops.borrow_mut().push(format!("cl~{idx}~{}", MODES[*mode].0));
+                fm.clear_instr_at(Location::Module { func_idx: fid, instr_idx: *idx }, im(*mode));
             }
             Step::InjectAt { idx, mode, probes } => {
                 for p in probes {
@@ -496,6 +520,12 @@ fn spec_c15(toks: &[String], plan: &[Step]) -> Vec<String> {
                 _ => alt[*idx].get_or_insert_with(Vec::new).extend(probes_tokens(probes)),
             },
             Step::EmptyAlt { idx } => alt[*idx] = Some(vec![]),
+            Step::ClearAt { idx, mode } => match mode {
+                0 => before[*idx].clear(),
+                1 => after[*idx].clear(),
+                2 => alt[*idx] = None,
+                _ => {}
+            },
             _ => {}
         }
     }
@@ -639,8 +669,15 @@ pub fn run(ctx: &mut Ctx) {
                 if allow_special {
                     // C22: every accepted special-mode injection is reflected in the output, unless it sits in a region
                     // that a block-alternate of the same plan removes
+                    let cleared_later = |pos: usize, idx: usize, mode: usize| plan[pos + 1..].iter().any(|x| matches!(x, Step::ClearAt { idx: j, mode: m2 } if *j == idx && *m2 == mode));
                     let removed: Vec<(usize, usize)> = plan
                         .iter()
+                        .enumerate()
+                        .filter(|(pos, s)| match s {
+                            Step::At { idx, mode: 6, .. } | Step::InjectAt { idx, mode: 6, .. } | Step::EmptyBlockAlt { idx } => !cleared_later(*pos, *idx, 6),
+                            _ => true,
+                        })
+                        .map(|(_, s)| s)
                         .filter_map(|s| match s {
                             Step::At { idx, mode: 6, .. } | Step::InjectAt { idx, mode: 6, .. } | Step::EmptyBlockAlt { idx } => {
                                 match_end(&toks, *idx).map(|e| (*idx, e))
@@ -660,6 +697,9 @@ pub fn run(ctx: &mut Ctx) {
                             // an `empty_block_alt` issued later on the same construct replaces the block-alternate
                             let pos = plan.iter().position(|x| std::ptr::eq(x, st)).unwrap();
                             if *mode == 6 && plan[pos + 1..].iter().any(|x| matches!(x, Step::EmptyBlockAlt { idx: j } if j == idx)) {
+                                continue;
+                            }
+                            if plan[pos + 1..].iter().any(|x| matches!(x, Step::ClearAt { idx: j, mode: m2 } if j == idx && m2 == mode)) {
                                 continue;
                             }
                             let inside = removed.iter().any(|(a, e)| *idx >= *a && *idx <= *e);
@@ -693,6 +733,16 @@ pub fn run(ctx: &mut Ctx) {
                                         sig,
                                         format!("probe {p} injected at {idx} ({}) is not in the output", toks[*idx]),
                                     ));
+                                }
+                            }
+                        }
+                    }
+                    // function entry / exit injections are special-mode injections too
+                    for st in &plan {
+                        if let Step::Func { exit, probes } = st {
+                            for p in probes {
+                                if !out.contains(&format!("i32.const:{p}")) {
+                                    fails.push(("C22", format!("func_{}-{}-lost", if *exit { "exit" } else { "entry" }, path), format!("probe {p} is not in the output")));
                                 }
                             }
                         }
